@@ -719,6 +719,8 @@ def gen_world(rng, opts=None):
     base = region(rng, ctx, opts)
     for i in range(nf):
         ftype = rng.choice(types)
+        if opts.get('type_sequence'):
+            ftype = opts['type_sequence'][i % len(opts['type_sequence'])]      # (the draw above keeps the random stream of every other caller)
         where = None
         if opts.get('overlap', True) and rng.random() < 0.8:
             jitter = 0.5 * base[2]
